@@ -1,10 +1,13 @@
 package main
 
 import (
-	"os"
 	"fmt"
 	"go/ast"
+	"go/token"
+	"go/types"
+	"os"
 	"os/exec"
+	"path/filepath"
 	"regexp"
 	"sort"
 	"strconv"
@@ -42,35 +45,106 @@ func genDroppedReal() (string, error) {
 	}
 	type row struct{ file, fn, call string }
 	var rows []row
-	files := map[string]*srcFile{}
+	// the reported calls are named by what is called (package path and receiver type from go/types), not by how the
+	// receiver variable happens to be called: "defer (*os.File).Close(", "_ = (*os.File).Close(", "fmt.Fprintf("
+	rels := []string{"", "files", "deb", "rpm", "apk", "arch", "ipk", "internal/cmd", "internal/glob"}
+	fset, infos, asts, terr := typeCheckRepo(rels)
+	if terr != nil {
+		return "", terr
+	}
+	calleeName := func(info *types.Info, ce *ast.CallExpr) string {
+		switch f := ce.Fun.(type) {
+		case *ast.SelectorExpr:
+			if o, ok := info.Uses[f.Sel].(*types.Func); ok {
+				return o.FullName()
+			}
+			return "?." + f.Sel.Name
+		case *ast.Ident:
+			if o, ok := info.Uses[f].(*types.Func); ok {
+				return o.FullName()
+			}
+			return f.Name
+		}
+		return "?"
+	}
 	for _, line := range strings.Split(string(out), "\n") {
 		m := reErrcheck.FindStringSubmatch(line)
 		if m == nil {
 			continue
 		}
-		sf, ok := files[m[1]]
+		rel := filepath.ToSlash(filepath.Dir(m[1]))
+		if rel == "." {
+			rel = ""
+		}
+		info, ok := infos[rel]
 		if !ok {
-			var perr error
-			sf, perr = parse(m[1])
-			if perr != nil {
-				return "", perr
-			}
-			files[m[1]] = sf
+			return "", fmt.Errorf("errcheck reports %s: package not type-checked", m[1])
 		}
 		ln, _ := strconv.Atoi(m[2])
-		call := m[4]
-		if i := strings.Index(call, "//"); i >= 0 {
-			call = call[:i]
+		col, _ := strconv.Atoi(m[3])
+		var found, fn string
+		for _, f := range asts[rel] {
+			if filepath.ToSlash(fset.Position(f.Pos()).Filename) != filepath.ToSlash(filepath.Join(*repo, m[1])) {
+				continue
+			}
+			for _, d := range f.Decls {
+				fd, ok := d.(*ast.FuncDecl)
+				if !ok || fd.Body == nil {
+					continue
+				}
+				var stack []ast.Node
+				ast.Inspect(fd, func(n ast.Node) bool {
+					if n == nil {
+						stack = stack[:len(stack)-1]
+						return true
+					}
+					stack = append(stack, n)
+					at := func(p token.Pos) bool { q := fset.Position(p); return q.Line == ln && q.Column == col }
+					switch x := n.(type) {
+					case *ast.CallExpr:
+						if found == "" && at(x.Lparen) {
+							pre := ""
+							if len(stack) >= 2 {
+								switch stack[len(stack)-2].(type) {
+								case *ast.DeferStmt:
+									pre = "defer "
+								case *ast.GoStmt:
+									pre = "go "
+								}
+							}
+							found, fn = pre+calleeName(info, x)+"(", fd.Name.Name
+						}
+					case *ast.AssignStmt:
+						for _, l := range x.Lhs {
+							if id, ok := l.(*ast.Ident); ok && id.Name == "_" && at(id.Pos()) && found == "" && len(x.Rhs) == 1 {
+								if ce, ok := x.Rhs[0].(*ast.CallExpr); ok {
+									shape := make([]string, len(x.Lhs))
+									for i, ll := range x.Lhs {
+										shape[i] = "v"
+										if lid, ok := ll.(*ast.Ident); ok && lid.Name == "_" {
+											shape[i] = "_"
+										}
+									}
+									found, fn = strings.Join(shape, ", ")+" "+x.Tok.String()+" "+calleeName(info, ce)+"(", fd.Name.Name
+								}
+							}
+						}
+					}
+					return true
+				})
+			}
 		}
-		call = strings.Join(strings.Fields(call), " ")
-		if i := strings.Index(call, "("); i >= 0 {
-			call = call[:i+1]
+		if found == "" {
+			return "", fmt.Errorf("errcheck reports %s:%d:%d, no call found there", m[1], ln, col)
 		}
-		fn := enclosingFunc(sf, ln)
 		if strings.HasPrefix(m[1], "internal/cmd/") && fn != "doPackage" {
 			continue // flag registration helpers of the CLI: no packaging output involved
 		}
-		rows = append(rows, row{m[1], fn, call})
+		pkg := rel
+		if pkg == "" {
+			pkg = "nfpm"
+		}
+		rows = append(rows, row{pkg, fn, found})
 	}
 	if len(rows) == 0 {
 		return "", fmt.Errorf("errcheck reported nothing (tool missing or failed): %s", out)
@@ -86,7 +160,7 @@ func genDroppedReal() (string, error) {
 	})
 	var b strings.Builder
 	b.WriteString("import NfpmModel.Bytes\nnamespace Nfpm.Generated\nopen Nfpm\n")
-	b.WriteString("/-- every call in the packaging code whose error result is dropped: (file, enclosing function, call) -/\n")
+	b.WriteString("/-- every call in the packaging code whose error result is dropped: (package, enclosing function, what is called) -/\n")
 	b.WriteString("def droppedErrors : List (Bytes × Bytes × Bytes) := [\n")
 	for i, r := range rows {
 		sep := ","
